@@ -49,6 +49,8 @@ def val_term(j):
         return C(k, conv_term(j[1], lambda p: (fl_term(p[0]), fl_term(p[1]))))
     if k == "PObj":
         return C(k, int(j[1]), int(j[2]))
+    if k == "PArray":
+        return C(k, int(j[1]), [int(n) for n in j[2]], int(j[3]))
     raise ValueError(j)
 
 
@@ -86,6 +88,14 @@ def desc_term(d):
         return C(k, [[int(c) for c in s] for s in d[1]])
     if k == "DPrefixMap":
         return C(k, [([int(c) for c in s], val_term(x)) for s, x in d[1]])
+    if k == "DArray":
+        def dim(x):
+            if x is None:
+                return C("DimAny")
+            if isinstance(x, int):
+                return C("DimEq", x)
+            return C("DimRange", int(x[0]), opt(x[1]))
+        return C(k, opt(d[1]), None if d[2] is None else Some([dim(x) for x in d[2]]), int(d[3]))
     raise ValueError(d)
 
 
@@ -242,6 +252,23 @@ PREFIX_VALUES = [S(t) for t in ("yes", "y", "ye", "yest", "n", "no", "nop", "nop
     + [["PStrSub", W("no")], ["PStrSub", W("yest")], ["PBytes", W("y")]]
 
 
+# numpy Array: dtype ids 30 float64, 31 float32, 32 int64, 33 int32, 34 int8, 35 bool, 36 <U1, 37 complex128;
+# casting ids 0 no, 1 equiv, 2 safe, 3 same_kind, 4 unsafe
+ARRAYS = [["DArray", None, None, 4], ["DArray", 30, None, 4], ["DArray", 33, [3], 4], ["DArray", 30, [None, 3], 4],
+          ["DArray", 30, [[2, 3], 3], 4], ["DArray", 30, [[2, None], None], 4], ["DArray", 33, None, 2],
+          ["DArray", 31, None, 3], ["DArray", 30, None, 0], ["DArray", 34, [[0, 2]], 3], ["DArray", None, [2, None], 4]]
+ARRAY_VALUES = [["PArray", 30, [3], 0], ["PArray", 30, [2, 3], 1], ["PArray", 33, [3, 2], 0], ["PArray", 30, [2], 2],
+                ["PArray", 34, [3], 1], ["PArray", 30, [4, 3], 0], ["PArray", 30, [1, 3], 0], ["PArray", 36, [2], 0],
+                ["PArray", 30, [2, 3, 1], 0], ["PArray", 32, [3], 0], ["PArray", 31, [2, 3], 0], ["PArray", 35, [3], 0],
+                ["PArray", 37, [3], 0], ["PArray", 30, [0], 0], ["PArray", 33, [3], 3],
+                ["PList", [["PInt", 1], ["PInt", 2], ["PInt", 5]]], ["PTuple", [["PFloat", F(1.5)], ["PInt", 2]]],
+                ["PList", [["PList", [["PInt", 1], ["PInt", 2]]], ["PList", [["PInt", 2], ["PInt", 5]]]]],
+                ["PList", [["PList", [["PInt", 1], ["PInt", 2], ["PInt", 5]]], ["PList", [["PInt", 0], ["PInt", 5], ["PInt", 12]]]]],
+                ["PList", []], ["PList", [["PInt", 1], S("a")]], ["PTupleSub", [["PInt", 1], ["PInt", 2]]],
+                ["PList", [["PList", [["PInt", 1]]], ["PList", [["PInt", 1], ["PInt", 2]]]]],
+                S("abc"), ["PInt", 5], ["PNone"], ["PFloat", F(0.5)], ["PBytes", [97]], ["POther", -2]]
+
+
 def fast_leaves(layer2=True):
     out = SIMPLE_FAST + float_ranges()[:8] + ENUMS[:3] + instances()
     if layer2:
@@ -262,7 +289,8 @@ def gen_desc(rnd, depth, compound_ok=True, layer2=True):
         n = rnd.choice([2, 2, 3, 4])
         alts = []
         for _ in range(n):
-            a = gen_desc(rnd, depth - 1, False, layer2) if rnd.random() < 0.8 else rnd.choice(slow)
+            # an alternative may itself be an Either (flattened by TraitCompound.set_validate)
+            a = gen_desc(rnd, depth - 1, rnd.random() < 0.25, layer2) if rnd.random() < 0.8 else rnd.choice(slow)
             alts.append(a)
         if not any(is_fast(a) for a in alts):
             alts[rnd.randrange(n)] = rnd.choice(leaves)
@@ -274,7 +302,7 @@ def gen_desc(rnd, depth, compound_ok=True, layer2=True):
 
 def is_fast(d):
     k = d[0]
-    if k in ("DAny", "DRangeI", "DType", "DString", "DPrefixList", "DPrefixMap", "DUnion"):
+    if k in ("DAny", "DRangeI", "DType", "DString", "DPrefixList", "DPrefixMap", "DUnion", "DArray"):
         return False
     if k == "DTuple":
         return len(d[1]) > 0
@@ -300,6 +328,10 @@ def shape(d):
     if k == "DCast":
         return d[1][2:].join(["C", ""])
     return k[1:]
+
+
+def has_kind(d, kind):
+    return kind in desc_kinds(d)
 
 
 def vshape(v):
